@@ -6,6 +6,8 @@ import random
 import sys
 
 from bounded.harness import Monitor, emit, find_ctx, new_ctx, payload, quiet_stdout
+from bounded.harness import install_watchdog
+install_watchdog()
 
 P = payload()
 tier = P.get("tier", "quick")
